@@ -33,11 +33,11 @@ var ev *verifev.Run
 
 // independent description of the cheap parameter sets (numbers repeated here on purpose)
 type pspec struct {
-	format        string
-	t, m, l       uint32
-	p             uint8
-	cost          uint
-	r, pp         int
+	format  string
+	t, m, l uint32
+	p       uint8
+	cost    uint
+	r, pp   int
 }
 
 var specs = map[uint]pspec{
@@ -180,7 +180,9 @@ func gen(thorough bool) []cas {
 		base := record(set, pw, salt, 1700000000)
 		f := strings.Split(base, ":")
 		join := func(g []string) string { return strings.Join(g, ":") + "\n" }
-		add := func(kind, c string) { out = append(out, cas{kind: fmt.Sprintf("set%d:%s", set, kind), content: c, pw: pw}) }
+		add := func(kind, c string) {
+			out = append(out, cas{kind: fmt.Sprintf("set%d:%s", set, kind), content: c, pw: pw})
+		}
 		// (iii) independent-implementation records, with and without trailing newline, with aux data
 		add("independent", base+"\n")
 		add("independent-nonl", base)
